@@ -587,3 +587,173 @@ Proof.
     + constructor; [reflexivity|]. apply IH. exact HF'.
   - constructor; [reflexivity|]. apply IH. exact HF'.
 Qed.
+
+(* ------------------------------------------------------------------------------------------------------------ *)
+(* The LOWER half of the property through the send loops: TimeoutError only if the time really spent is >= T
+   (no early timeout), provided the selector reports "not ready" only after the full requested wait. *)
+Section RetryRemaining.
+  Variables St R : Type.
+  Variable cb : St -> cbres R * St * Z.
+
+  (* the timeout _retry hands back is at least T minus the time its waits took *)
+  Lemma retry_loop_ok_remaining : forall fuel ri t st sels v T',
+    rr_out (retry_loop cb fuel ri (Some t) st sels) = ROk v T' ->
+    exists t', T' = Some t' /\ t - sum_wait_el (rr_waits (retry_loop cb fuel ri (Some t) st sels)) <= t'.
+  Proof.
+    induction fuel as [|f IH]; intros ri t st sels v T'; simpl; [discriminate|].
+    destruct (cb st) as [[r st1] cost]. destruct r as [v0|w|c]; simpl; try discriminate.
+    - intro H; inversion H; subst. exists t. split; [reflexivity|lia].
+    - destruct (t <=? 0); simpl; [discriminate|].
+      destruct (next_sel sels) as [a sels1].
+      assert (Hgen : forall req (isri : bool),
+        rr_out (if negb (sa_ready a) && negb isri
+                then mk_rres RTimeout st1 sels1 (cost + sa_el a)
+                       [{| w_write := w; w_req := Some req; w_ready := sa_ready a; w_el := sa_el a |}] 1
+                else rr_add (cost + sa_el a)
+                       [{| w_write := w; w_req := Some req; w_ready := sa_ready a; w_el := sa_el a |}]
+                       (retry_loop cb f ri (recompute (Some t) (sa_el a)) st1 sels1)) = ROk v T' ->
+        exists t', T' = Some t' /\
+        t - sum_wait_el (rr_waits (if negb (sa_ready a) && negb isri
+                then mk_rres RTimeout st1 sels1 (cost + sa_el a)
+                       [{| w_write := w; w_req := Some req; w_ready := sa_ready a; w_el := sa_el a |}] 1
+                else rr_add (cost + sa_el a)
+                       [{| w_write := w; w_req := Some req; w_ready := sa_ready a; w_el := sa_el a |}]
+                       (retry_loop cb f ri (recompute (Some t) (sa_el a)) st1 sels1))) <= t').
+      { intros req isri. destruct (negb (sa_ready a) && negb isri); simpl; [discriminate|].
+        intro H. destruct (IH ri (Z.max 0 (t - sa_el a)) st1 sels1 v T' H) as (t' & E & L).
+        exists t'. split; [assumption|lia]. }
+      destruct ri as [x|]; simpl.
+      + destruct (t <=? x); simpl; [apply (Hgen t false) | apply (Hgen x true)].
+      + apply (Hgen t false).
+  Qed.
+
+  (* a _retry that raises never raises the TimeoutError code by another route than its timeout *)
+End RetryRemaining.
+
+Lemma retry_send_raise_code : forall data fuel ri T s sels c,
+  rr_out (retry (sock_send data) fuel ri T s sels) = RRaise c -> c <> E_TIMEOUT.
+Proof.
+  intros data fuel ri T s sels c. unfold retry. destruct (tmo_neg T); [simpl; intro H; inversion H; discriminate|].
+  revert ri T s sels. induction fuel as [|f IH]; intros ri T s sels; simpl; [discriminate|].
+  unfold sock_send at 1. destruct s as [script wire]; simpl.
+  destruct script as [|a rest]; simpl; [discriminate|].
+  destruct a as [n k|w k|k]; simpl; try discriminate.
+  - destruct (tmo_le0 T); simpl; [discriminate|].
+    destruct (next_sel sels) as [a sels1].
+    destruct (if negb (tmo_leb T ri) then ri else T) as [wz|].
+    + destruct (negb (sa_ready a) && negb (negb (tmo_leb T ri))); simpl; [discriminate|]. apply IH.
+    + destruct (sa_ready a); simpl; [apply IH|]. intro H; inversion H; discriminate.
+  - intro H; inversion H; discriminate.
+Qed.
+
+(* sendmsg loop: TimeoutError => the waits really took at least T *)
+Lemma sendmsg_loop_timeout_exhausted : forall F ri iov fuel bufs t s sels,
+  sr_out (sendmsg_loop F ri iov fuel bufs (Some t) s sels) = SExc E_TIMEOUT ->
+  Forall full_wait (sr_waits (sendmsg_loop F ri iov fuel bufs (Some t) s sels)) ->
+  t <= sum_wait_el (sr_waits (sendmsg_loop F ri iov fuel bufs (Some t) s sels)).
+Proof.
+  intros F ri iov fuel. induction fuel as [|f IH]; intros bufs t s sels.
+  - destruct bufs; simpl; discriminate.
+  - destruct bufs as [|b0 bufs']; [simpl; discriminate|].
+    change (sendmsg_loop F ri iov (S f) (b0 :: bufs') (Some t) s sels) with
+      (let r := retry (sock_sendmsg iov (b0 :: bufs')) F ri (Some t) s sels in
+       match rr_out r with
+       | ROk sent T1 => sr_add (rr_dt r) (rr_waits r) (rr_calls r)
+                               (sendmsg_loop F ri iov f (adjust_leftover (b0 :: bufs') sent) T1 (rr_st r) (rr_sels r))
+       | o => sres_of_fail r (rout_fail o)
+       end).
+    cbv zeta.
+    pose proof (retry_timeout_exhausted_proof _ _ (sock_sendmsg iov (b0 :: bufs')) F ri t s sels) as HT.
+    pose proof (retry_send_raise_code (concat (firstn iov (b0 :: bufs'))) F ri (Some t) s sels) as HR.
+    assert (HK : forall v T', rr_out (retry (sock_sendmsg iov (b0 :: bufs')) F ri (Some t) s sels) = ROk v T' ->
+                 exists t', T' = Some t' /\
+                 t - sum_wait_el (rr_waits (retry (sock_sendmsg iov (b0 :: bufs')) F ri (Some t) s sels)) <= t').
+    { intros v T'. unfold retry. destruct (tmo_neg (Some t)); [simpl; discriminate|]. apply retry_loop_ok_remaining. }
+    unfold sock_sendmsg in HR.
+    set (r := retry (sock_sendmsg iov (b0 :: bufs')) F ri (Some t) s sels) in *.
+    destruct (rr_out r) as [sent T1| |c|] eqn:E.
+    + simpl. intros Hout HF. apply Forall_app in HF. destruct HF as [HF1 HF2].
+      destruct (HK sent T1 eq_refl) as (t1 & E1 & L1). subst T1.
+      specialize (IH _ t1 _ _ Hout HF2). rewrite sum_wait_el_app. lia.
+    + simpl. intros _ HF. apply HT; [reflexivity|exact HF].
+    + simpl. intro H. inversion H. exfalso. apply (HR c); [first [exact E | reflexivity]|assumption].
+    + simpl. discriminate.
+Qed.
+
+Lemma sendmsg_loop_dt_ge : forall F ri iov fuel bufs T s sels,
+  send_costs_ok s ->
+  sum_wait_el (sr_waits (sendmsg_loop F ri iov fuel bufs T s sels)) <= sr_dt (sendmsg_loop F ri iov fuel bufs T s sels).
+Proof.
+  intros F ri iov fuel. induction fuel as [|f IH]; intros bufs T s sels Hc.
+  - destruct bufs; simpl; lia.
+  - destruct bufs as [|b0 bufs']; [simpl; lia|].
+    change (sendmsg_loop F ri iov (S f) (b0 :: bufs') T s sels) with
+      (let r := retry (sock_sendmsg iov (b0 :: bufs')) F ri T s sels in
+       match rr_out r with
+       | ROk sent T1 => sr_add (rr_dt r) (rr_waits r) (rr_calls r)
+                               (sendmsg_loop F ri iov f (adjust_leftover (b0 :: bufs') sent) T1 (rr_st r) (rr_sels r))
+       | o => sres_of_fail r (rout_fail o)
+       end).
+    cbv zeta.
+    pose proof (retry_dt_ge _ _ (sock_send (concat (firstn iov (b0 :: bufs')))) send_costs_ok
+                            (sock_send_inv (concat (firstn iov (b0 :: bufs')))) F ri T s sels Hc) as [HD HI].
+    change (sock_send (concat (firstn iov (b0 :: bufs')))) with (sock_sendmsg iov (b0 :: bufs')) in HD, HI.
+    set (r := retry (sock_sendmsg iov (b0 :: bufs')) F ri T s sels) in *.
+    destruct (rr_out r) as [sent T1| |c|]; try exact HD.
+    specialize (IH (adjust_leftover (b0 :: bufs') sent) T1 (rr_st r) (rr_sels r) HI).
+    unfold sr_add. cbn [sr_waits sr_dt]. rewrite sum_wait_el_app. lia.
+Qed.
+
+(* send_all loop: TimeoutError => the time the call took (waits + call costs) is at least T *)
+Lemma send_all_loop_timeout_exhausted : forall F ri fuel rest t s sels,
+  send_costs_ok s ->
+  sr_out (send_all_loop F ri fuel rest (Some t) s sels) = SExc E_TIMEOUT ->
+  Forall full_wait (sr_waits (send_all_loop F ri fuel rest (Some t) s sels)) ->
+  t <= sr_dt (send_all_loop F ri fuel rest (Some t) s sels).
+Proof.
+  intros F ri fuel. induction fuel as [|f IH]; intros rest t s sels Hc.
+  - destruct rest; simpl; discriminate.
+  - destruct rest as [|b rest']; [simpl; discriminate|].
+    change (send_all_loop F ri (S f) (b :: rest') (Some t) s sels) with
+      (let r := send F ri (b :: rest') (Some t) s sels in
+       match rr_out r with
+       | ROk sent _ => sr_add (rr_dt r) (rr_waits r) (rr_calls r)
+                              (send_all_loop F ri f (skipn sent (b :: rest')) (recompute (Some t) (rr_dt r)) (rr_st r) (rr_sels r))
+       | o => sres_of_fail r (rout_fail o)
+       end).
+    cbv zeta. unfold send.
+    pose proof (retry_timeout_exhausted_proof _ _ (sock_send (b :: rest')) F ri t s sels) as HT.
+    pose proof (retry_send_raise_code (b :: rest') F ri (Some t) s sels) as HR.
+    pose proof (retry_dt_ge _ _ (sock_send (b :: rest')) send_costs_ok (sock_send_inv (b :: rest')) F ri (Some t) s sels Hc)
+      as [HD HI].
+    set (r := retry (sock_send (b :: rest')) F ri (Some t) s sels) in *.
+    destruct (rr_out r) as [sent T1| |c|] eqn:E.
+    + simpl. intros Hout HF. apply Forall_app in HF. destruct HF as [HF1 HF2].
+      specialize (IH (skipn sent (b :: rest')) (Z.max 0 (t - rr_dt r)) (rr_st r) (rr_sels r) HI Hout HF2). lia.
+    + simpl. intros _ HF. specialize (HT eq_refl HF). lia.
+    + simpl. intro H. inversion H. exfalso. apply (HR c); [first [exact E | reflexivity]|assumption].
+    + simpl. discriminate.
+Qed.
+
+(* send_all_from_iterable on every path *)
+Lemma send_iter_timeout_exhausted : forall drop_empty has_sendmsg iov F fuel ri chunks t s sels,
+  send_costs_ok s ->
+  sr_out (send_iter drop_empty has_sendmsg iov F fuel ri chunks (Some t) s sels) = SExc E_TIMEOUT ->
+  Forall full_wait (sr_waits (send_iter drop_empty has_sendmsg iov F fuel ri chunks (Some t) s sels)) ->
+  t <= sr_dt (send_iter drop_empty has_sendmsg iov F fuel ri chunks (Some t) s sels).
+Proof.
+  intros drop_empty has_sendmsg iov F fuel ri chunks t s sels Hc. unfold send_iter.
+  destruct ((iov <=? 0) || negb has_sendmsg).
+  - unfold send_all_join, send_all. destruct (concat chunks) as [|b d].
+    + unfold send.
+      pose proof (retry_timeout_exhausted_proof _ _ (sock_send []) F ri t s sels) as HT.
+      pose proof (retry_send_raise_code [] F ri (Some t) s sels) as HR.
+      pose proof (retry_dt_ge _ _ (sock_send []) send_costs_ok (sock_send_inv []) F ri (Some t) s sels Hc) as [HD _].
+      destruct (rr_out (retry (sock_send []) F ri (Some t) s sels)) as [v T1| |c|] eqn:E; simpl; try discriminate.
+      * intros _ HF. specialize (HT eq_refl HF). lia.
+      * intro H. inversion H. exfalso. apply (HR c); [reflexivity|assumption].
+    + apply send_all_loop_timeout_exhausted. exact Hc.
+  - intros Hout HF.
+    pose proof (sendmsg_loop_timeout_exhausted _ _ _ _ _ _ _ _ Hout HF) as L.
+    pose proof (sendmsg_loop_dt_ge F ri (Z.to_nat iov) fuel (build_deque drop_empty chunks) (Some t) s sels Hc). lia.
+Qed.
